@@ -564,7 +564,12 @@ func (x *Exec) VerifyFunc(fn *ssa.Function, c *FuncContract) (err error) {
 			case evalErr:
 				err = fmt.Errorf("%s: contract error: %s", fn, e.msg)
 			default:
-				panic(r)
+				// the contract no longer fits the code (e.g. a map invariant over a variable that is no
+				// longer a map): a generator error, reported like any other, not a crash of the check
+				if os.Getenv("GOWP_PANIC") != "" {
+					panic(r)
+				}
+				err = fmt.Errorf("%s: contract does not apply to the current code (internal error: %v)", fn, r)
 			}
 		}
 	}()
